@@ -226,6 +226,25 @@ package actor
 //@             && forall(k, 0, 10, k < len(tableInfo.State.GameState.Players) ==> sameslice(tableInfo.State.GameState.Players[k].HoleCards, old(tableInfo.State.GameState.Players[k].HoleCards)))
 //@   ensures published-once: err == nil && ncalls() == old(ncalls()) + 1 && callfn(old(ncalls())) == "callback:onTableStateUpdated" && callarg(old(ncalls()), 0) == ref(tableInfo)
 
+// UpdateTableState is the only operation of the observer runner that hands a table to the listener (and it filters first):
+// switching the mode, wiring the actor and registering the listener publish nothing — in particular not a table cached
+// under the previous mode.
+//@ func (*observerRunner).EnabledSystemMode
+//@   property C20
+//@   requires obr != nil
+//@   modifies obr.systemMode
+//@   ensures mode-switch-publishes-nothing: ncalls() == old(ncalls()) && obr.systemMode == enabled
+//@ func (*observerRunner).SetActor
+//@   property C20
+//@   requires obr != nil
+//@   modifies obr.actor
+//@   ensures wiring-publishes-nothing: ncalls() == old(ncalls())
+//@ func (*observerRunner).OnTableStateUpdated
+//@   property C20
+//@   requires obr != nil
+//@   modifies obr.onTableStateUpdated
+//@   ensures registering-publishes-nothing: ncalls() == old(ncalls())
+
 //@ func (*actor).UpdateTableState
 //@   property C20
 //@   returns err
